@@ -202,6 +202,17 @@ type ledgerComm struct {
 	closeN map[string]int
 	live   map[comm.SubscriptionID]string // subscription id -> session id, as handed out and not yet released
 	bcast  map[string]int                 // "<sid>/<msgType>"
+	// hold the holdNth-th (counted from arming) release of a fail-watch subscription until holdFailUnsub is closed
+	holdFailUnsub chan struct{}
+	holding       chan struct{}
+	holdNth       int
+	failUnsubs    int
+}
+
+func (l *ledgerComm) armHold(nth int) {
+	l.mu.Lock()
+	l.holdFailUnsub, l.holding, l.holdNth, l.failUnsubs = make(chan struct{}), make(chan struct{}, 1), nth, 0
+	l.mu.Unlock()
 }
 
 func newLedgerComm(h *fakeHost) *ledgerComm {
@@ -231,6 +242,20 @@ func (l *ledgerComm) Subscribe(sessionID string, t comm.MessageType, ch chan *co
 	return id
 }
 func (l *ledgerComm) UnSubscribe(id comm.SubscriptionID) {
+	// a scripted scheduling delay: the n-th release of a fail-watch subscription waits for the harness
+	if string(id) != "" && id.MessageType() == comm.TssFailMsg {
+		l.mu.Lock()
+		l.failUnsubs++
+		hold := l.holdFailUnsub
+		if l.failUnsubs != l.holdNth {
+			hold = nil
+		}
+		l.mu.Unlock()
+		if hold != nil {
+			l.holding <- struct{}{}
+			<-hold
+		}
+	}
 	l.inner.UnSubscribe(id)
 	l.mu.Lock()
 	if sid, ok := l.live[id]; ok {
@@ -311,6 +336,7 @@ func (p *recProc) Run(ctx context.Context, coordinator bool, resultChn chan inte
 	p.mu.Lock()
 	p.runs++
 	p.params = params
+	p.comm.UnSubscribe(p.subID) // like the repaired signing processes: a run replaces the previous run's subscription
 	p.subID = p.comm.Subscribe(p.sid, comm.TssKeySignMsg, make(chan *comm.WrappedMessage))
 	p.mu.Unlock()
 	p.stats.enter(p.sid)
